@@ -315,7 +315,7 @@ fn send_job(w: &mut Worker, line: &str) -> Reply {
         if let Some(i) = l.strip_prefix("H ") {
             let k: Option<u64> = i.parse().ok();
             let _ = w.child.wait();
-            return Reply::Died(k, "hang: no progress for 25 s of wall-clock time".to_string());
+            return Reply::Died(k, "hang: 20 s of CPU time (or 300 s of wall-clock time) on one input without finishing".to_string());
         } else if let Some(i) = l.strip_prefix("I ") {
             last_i = i.parse().ok();
         } else if let Some(x) = l.strip_prefix("X ") {
@@ -354,6 +354,10 @@ impl Job {
         let c = if careful { " careful" } else { "" };
         match self {
             Job::Tokens { alpha, len, i0, i1 } => format!("T {alpha} {len} {i0} {i1} {start}{c}"),
+            Job::File { kind: 'F', path, from, to } => {
+                let off = RECORD_OFFSETS.lock().unwrap().get((from + start) as usize).copied().unwrap_or(0);
+                format!("F {path} {} {to} @{off}{c}", from + start)
+            }
             Job::File { kind, path, from, to } => format!("{kind} {path} {} {to}{c}", from + start),
         }
     }
@@ -468,12 +472,19 @@ pub fn run_jobs(bin: &str, jobs: &[Job], alpha_len: usize) -> Vec<JobOut> {
     res
 }
 
+/// byte offset of every record of the records file written last (workers seek instead of reading it all)
+static RECORD_OFFSETS: Mutex<Vec<u64>> = Mutex::new(Vec::new());
+
 fn write_records(path: &str, inputs: &[Vec<u8>]) {
     let mut buf = Vec::with_capacity(inputs.iter().map(|i| i.len() + 4).sum());
+    let mut offsets = Vec::with_capacity(inputs.len() + 1);
     for i in inputs {
+        offsets.push(buf.len() as u64);
         buf.extend_from_slice(&(i.len() as u32).to_le_bytes());
         buf.extend_from_slice(i);
     }
+    offsets.push(buf.len() as u64);
+    *RECORD_OFFSETS.lock().unwrap() = offsets;
     std::fs::write(path, buf).unwrap_or_else(|e| {
         eprintln!("machinery error: cannot write {path}: {e}");
         std::process::exit(2)
